@@ -1,0 +1,18 @@
+//go:build !verif
+
+// Package verifhook exposes observation points for the external verification harness.
+//
+// It is only active with the "verif" build tag. Without the tag, every function is an empty no-op.
+package verifhook
+
+// Loop reports one iteration of a loop expected to reach a fixpoint.
+func Loop(string) {}
+
+// Phase reports the end of a processing phase, with the document in its current state.
+func Phase(string, interface{}) {}
+
+// Enter reports that a recursive function has been entered.
+func Enter(string) {}
+
+// Leave reports that a recursive function has been left.
+func Leave(string) {}
